@@ -2112,6 +2112,33 @@ func libraryFileImmutable(r *an.Run, rule string) {
 	}
 	r.Count("accesses to patch.File fields", n)
 	r.Min("accesses to patch.File fields", 2)
+	positionTableOnlyGrows(r)
+}
+
+// positionTableOnlyGrows: the one token.FileSet of a run (of a parsed patch) is
+// shared by every file and every concurrent Apply call; go/token locks it and
+// the rules here trust that it is append-only. The module therefore only ever
+// adds files to it and looks positions up: it never removes a file
+// (RemoveFile) or replaces its contents (Read) — a call that drops "its own"
+// files cannot tell them from those of a call still in flight.
+func positionTableOnlyGrows(r *an.Run) {
+	nUses := 0
+	for _, g := range r.P.ModuleFuncs() {
+		for _, c := range an.Calls(g) {
+			callee := c.Common().StaticCallee()
+			if callee == nil || callee.Signature.Recv() == nil || an.ShortType(callee.Signature.Recv().Type()) != "*token.FileSet" {
+				continue
+			}
+			nUses++
+			switch callee.Name() {
+			case "RemoveFile", "Read":
+				r.Fail(short(g)+"|FileSet."+callee.Name(), c.Pos(), "%s calls token.FileSet.%s on the position table shared by all files and all concurrent Apply calls: positions another file still uses stop resolving (comments are misplaced, File() returns nil)", short(g), callee.Name())
+			}
+		}
+	}
+	r.Count("uses of the shared position table", nUses)
+	r.Min("uses of the shared position table", 5)
+	r.Pass("position-table-only-grows", 0, "%d calls to methods of the shared token.FileSet in the module: files are added and positions looked up, nothing is removed or replaced", nUses)
 }
 
 // ---------------------------------------------------------------------------
